@@ -240,6 +240,28 @@ fn handle(op: &str, a: &[&str]) -> String {
         "parse_stamp" => c_res(&enum_fmt(a[0]).parse::<Stamp>(&unhex(a[1])), c_stamp),
         "parse_punct" => c_res(&enum_fmt(a[0]).parse::<Punctuation>(&unhex(a[1])), c_punct),
         "format" => { let mut tk = Tok { t: a[1].split(' ').collect(), i: 0 }; js(&enum_fmt(a[0]).format_narsese(&d_narsese(&mut tk))) }
+        "cast_ops" => {
+            // facts of the sentence<->task casts and the NarseseValue accessors for one value (C15)
+            let mut tk = Tok { t: a[0].split(' ').collect(), i: 0 };
+            let v = d_narsese(&mut tk);
+            let kind = if v.is_term() { "term" } else if v.is_sentence() { "sentence" } else { "task" };
+            let it = matches!(v.clone().try_into_term(), Ok(ref t) if ENarsese::from_term(t.clone()) == v);
+            let is_ = matches!(v.clone().try_into_sentence(), Ok(ref t) if ENarsese::from_sentence(t.clone()) == v);
+            let ik = matches!(v.clone().try_into_task(), Ok(ref t) if ENarsese::from_task(t.clone()) == v);
+            let ok_t = v.clone().try_into_term().is_ok(); let ok_s = v.clone().try_into_sentence().is_ok(); let ok_k = v.clone().try_into_task().is_ok();
+            let compat = match v.clone().try_into_task_compatible() { Ok(t) => format!("[\"Ok\",{}]", c_narsese(&ENarsese::from_task(t))), Err(_) => "[\"Err\"]".to_string() };
+            let mut extra = String::new();
+            if let ENarsese::Sentence(s) = &v {
+                let t = s.clone().cast_to_task();
+                let back = t.clone().try_cast_to_sentence();
+                extra = format!(",\"cast_to_task\":{},\"back_equal\":{}", c_narsese(&ENarsese::from_task(t)), matches!(&back, Ok(b) if b == s));
+            }
+            if let ENarsese::Task(t) = &v {
+                let r = t.clone().try_cast_to_sentence();
+                extra = match r { Ok(s) => format!(",\"to_sentence\":[\"Ok\",{}]", c_narsese(&ENarsese::from_sentence(s))), Err(t2) => format!(",\"to_sentence\":[\"Err\",{}]", t2 == *t) };
+            }
+            format!("{{\"kind\":{},\"is\":[{},{},{}],\"ok\":[{},{},{}],\"same\":[{},{},{}],\"compat\":{}{}}}", js(kind), v.is_term(), v.is_sentence(), v.is_task(), ok_t, ok_s, ok_k, it, is_, ik, compat, extra)
+        }
         "roundtrip" => {
             let mut tk = Tok { t: a[1].split(' ').collect(), i: 0 };
             let v = d_narsese(&mut tk);
@@ -355,6 +377,26 @@ fn handle(op: &str, a: &[&str]) -> String {
             js(&e.to_string())
         }
         "lex_parse" => c_res(&lex_fmt(a[0]).parse(&unhex(a[1])), l_narsese),
+        "lex_term_ops" => {
+            // lexical term accessors (C14): stored term, consuming extraction, category
+            match lex_fmt(a[0]).parse_term(&unhex(a[1])) {
+                Ok(t) => {
+                    let cat = format!("{:?}", t.get_category());
+                    let ext = t.clone().extract_terms_to_vec();
+                    format!("[\"Ok\",{{\"term\":{},\"extract\":[{}],\"category\":{}}}]", l_term(&t), ext.iter().map(l_term).collect::<Vec<_>>().join(","), js(&cat))
+                }
+                Err(_) => "[\"Err\"]".to_string(),
+            }
+        }
+        "lex_history" => {
+            // lexical parses of h1|h2|...|hn in order on ONE thread and ONE format instance; the last input is also parsed alone on a fresh thread
+            let hs: Vec<String> = a[1].split('|').map(unhex).collect();
+            let f = lex_fmt(a[0]);
+            let seq: Vec<String> = hs.iter().map(|h| c_res(&f.parse(h), l_narsese)).collect();
+            let last = hs.last().cloned().unwrap_or_default(); let fname = a[0].to_string();
+            let alone = std::thread::Builder::new().stack_size(256 << 20).spawn(move || c_res(&lex_fmt(&fname).parse(&last), l_narsese)).unwrap().join().unwrap_or_else(|_| "[\"Panic\"]".to_string());
+            format!("{{\"seq\":[{}],\"alone\":{}}}", seq.join(","), alone)
+        }
         "lex_parse_term" => c_res(&lex_fmt(a[0]).parse_term(&unhex(a[1])), l_term),
         "lex_roundtrip" => {
             let r = lex_fmt(a[0]).parse(&unhex(a[1]));
@@ -379,7 +421,12 @@ fn main() {
         if line.is_empty() { continue; }
         let parts: Vec<&str> = line.split('\t').collect();
         let id = parts[0]; let op = parts[1];
-        let r = catch_unwind(AssertUnwindSafe(|| handle(op, &parts[2..])));
+        // every request runs on a FRESH thread: thread-local state of the library can never leak from one request into the next
+        let (op_s, args_s): (String, Vec<String>) = (op.to_string(), parts[2..].iter().map(|x| x.to_string()).collect());
+        let r = std::thread::Builder::new().stack_size(256 << 20).spawn(move || {
+            let args: Vec<&str> = args_s.iter().map(|x| x.as_str()).collect();
+            catch_unwind(AssertUnwindSafe(|| handle(&op_s, &args)))
+        }).unwrap().join().unwrap_or_else(|e| Err(e));
         let mut out = stdout.lock();
         match r {
             Ok(s) => writeln!(out, "{}\tok\t{}", id, s).unwrap(),
